@@ -270,7 +270,7 @@ SPEC = {
         "elab_rejects_aggregate_dimension", "elab_rejects_aggregate_matrix",
         "elab_rejects_ctor_count", "elab_rejects_ctor_of_non_numeric", "elab_ctor_exact",
         "elab_rejects_index_type", "elab_index_exact", "elab_rejects_write_to_repeated_swizzle",
-        "matrix_swizzle_at_most_four", "vector_swizzle_longer_than_four_accepted",
+        "matrix_swizzle_at_most_four", "elab_rejects_swizzle_longer_than_four", "elab_swizzle_at_most_four",
         "elab_rejects_const_write_chain", "elab_rejects_const_increment_chain", "elab_rejects_const_array_write_chain",
         "elab_rejects_const_out_arg_chain", "elab_rejects_readonly_resource_write_chain",
         # fix batch 2: every object on the way to the written part must be a mutable lvalue
@@ -300,7 +300,7 @@ SPEC = {
                   "expression and aggregate initialisers, blocks, if / for / while / do / switch with their scopes) — it is proved "
                   "by mutual structural induction over all expressions and statements, for debug and release builds, that an "
                   "accepted expression has the computed type under the IR's own typing judgment (get_type / get_return_type with "
-                  "their asserts as premises, strengthened for the new nodes: swizzle slots in range, struct member taken from that "
+                  "their asserts as premises, strengthened for the new nodes: swizzle slots in range and at most four, struct member taken from that "
                   "struct, constructor slot contract), that every expression on every path of an accepted statement list is typed, "
                   "returns / initialisers (every leaf of an aggregate) have exactly the required type, and that writes (assignment "
                   "family, ++/--, out/inout arguments of user and intrinsic functions) to const or rvalue expressions — including "
@@ -322,8 +322,9 @@ SPEC = {
                   "source statements that merge the named type's modifier with the written one, the fields of combine and "
                   "the keyword arms are re-extracted (Gen.TypeMods) and re-decided against the model's behaviour "
                   "(parse_type_for_usage_as_modelled); the discipline of seeded mutant C03-5 is a decide-checked negation witness. "
-                  "Where the full statement is false on the code the negation is a decide-checked witness replayed on the "
-                  "implementation: a scalar / vector swizzle may name more than four components.",
+                  "A swizzle of a scalar or a vector names at most four components (fix c805c03: the former negation witness is "
+                  "now the rejection theorem elab_rejects_swizzle_longer_than_four; the judgment demands at most four slots of every "
+                  "swizzle node, so elab_sound gives it for every accepted program); no negation witness against the code is left.",
     "rule": "C03.conv = one row of the exhaustive find/get_target_type table over 8 scalar kinds x {scalar, vec1-4, 2 matrices} "
             "+ enums + structs x modifier sets x {lvalue,rvalue}. C03.prog = (local variable types, function prototypes, return "
             "type, one statement) compiled as an RSSL program through the real type_check: every unary operator on every "
@@ -356,7 +357,8 @@ SPEC = {
         "parse_expr_binop, get_non_vector_conversion_rank, most_sig_scalar::get_order, is_integer_or_bool_or_enum, the "
         "literal re-tagging tables of ImplicitConversion::apply, the literal-kind remap of vector / matrix operators, the pinned call "
         "sites and bodies of check_mutable_place / check_output_arguments; IntrinsicSigs: the INTRINSICS table expanded as add_intrinsics "
-        "registers it; ElabTables: the swizzle character tables and the arm lists of member access / subscript / aggregate "
+        "registers it; ElabTables: the swizzle character tables, the slot-count limits of the scalar / vector / matrix swizzle readers "
+        "and the arm lists of member access / subscript / aggregate "
         "initialiser; TypeMods: the statements of parse_type_for_usage around the modifier merge, the fields and operator of "
         "TypeModifier::combine, per keyword arm of parse_type_modifier the field set, the conflicting fields, the requirement, "
         "the denying positions and the errors) — re-run on /repo's working tree every time",
